@@ -166,6 +166,14 @@ func (c *effectsCache) compute(vc *VC, f *ssa.Function) *EffectSet {
 func (vc *VC) localEffects(g *ssa.Function) (*EffectSet, []*ssa.Function) {
 	e := &EffectSet{heaps: map[string]bool{}}
 	name := funcName(g)
+	if fc := vc.specs.contractFor(name); fc != nil {
+		// ghosts assigned by the function's set clauses are part of its effect
+		for _, n := range fc.setGhosts() {
+			if gh := vc.specs.ghost(n); gh != nil && !gh.IsMap {
+				e.heaps[gh.heapName()] = true
+			}
+		}
+	}
 	if fc := vc.specs.contractFor(name); fc != nil && (fc.Pure || fc.HasMod) {
 		// declared write set: expressed as heap names
 		if fc.HasMod {
@@ -374,6 +382,13 @@ func (vc *VC) modHeapNames(fc *FuncContract, g *ssa.Function) []string {
 				continue
 			}
 			if id, ok := x.X.(*EIdent); ok && g.Pkg != nil {
+				// "T.f": field f of every object of the struct type T
+				if tn, ok := g.Pkg.Pkg.Scope().Lookup(id.Name).(*types.TypeName); ok {
+					if _, isStruct := tn.Type().Underlying().(*types.Struct); isStruct {
+						out = append(out, fieldHeapName(tn.Type(), x.Name))
+						continue
+					}
+				}
 				for _, imp := range g.Pkg.Pkg.Imports() {
 					if imp.Name() == id.Name {
 						out = append(out, globalName(imp.Path(), x.Name))
@@ -466,6 +481,18 @@ func (vc *VC) callEffects(fr *Frame, c *ssa.CallCommon) *EffectSet {
 	}
 	if callee == nil {
 		callee = c.StaticCallee()
+	}
+	if callee == nil {
+		// a closure called through the local variable it was stored in (the
+		// load may not have been translated yet when a loop's write set is
+		// computed): the variable's only store names the closure
+		if u, ok := c.Value.(*ssa.UnOp); ok {
+			if a, ok := u.X.(*ssa.Alloc); ok {
+				if mc := singleClosureStore(a); mc != nil {
+					callee = mc.Fn.(*ssa.Function)
+				}
+			}
+		}
 	}
 	return vc.effectsOfCall(fr, c, callee)
 }
